@@ -31,11 +31,28 @@ for uid, entry, defs, fns in [
                       what="destructor on a complete object AND on every prefix of its construction (any subset of its "
                            "allocations failed): each owned allocation / OS object released exactly once, nothing NULL "
                            "dereferenced (same obligations as the C16 unit of this constructor, teardown side)"))
+EH = "Source/Lib/Encoder/Globals/EbEncHandle.c"
+UNITS.append(Unit(
+    uid="U15.2.enc_threads", prop="C15", harness="harness/c15_threads.c", entry="h_thread_pairing", mode="plain",
+    functions=["svt_av1_enc_init [block slice: kernel-thread creation]", "svt_enc_handle_stop_threads"],
+    slice_spec=[{"kind": "slice", "file": EH, "func_re": r"^EB_API EbErrorType svt_av1_enc_init\(",
+                 "first": "EB_CREATE_THREAD(enc_handle_ptr->resource_coordination_thread_handle, resource_coordination_kernel, enc_handle_ptr->resource_coordination_context_ptr);",
+                 "last": "EB_CREATE_THREAD(enc_handle_ptr->packetization_thread_handle, packetization_kernel, enc_handle_ptr->packetization_context_ptr);",
+                 "name": "verif_c15_create_threads", "ret": "EbErrorType", "epilogue": ["return EB_ErrorNone;"], "allow": ["return"],
+                 "params": "EbEncHandle *enc_handle_ptr, SequenceControlSet *control_set_ptr"}],
+    keep_bodies=["verif_c15_create_threads", "svt_enc_handle_stop_threads"], malloc_may_fail=True,
+    cbmc_flags=["--memory-leak-check"], unwind=4, canaries=2, min_obligations=100, cover_functions=[], timeout=900, mem_gb=16,
+    trusted=TR + ["case-split calloc model for small pointer arrays (stubs/calloc_small.h)"], kind="bounded",
+    bound="1..2 threads per multi-threaded stage (10 stages, counts independent), 6 single threads",
+    what="kernel-thread creation sequence of svt_av1_enc_init (any prefix may succeed) followed by "
+         "svt_enc_handle_stop_threads: every created thread joined exactly once (no leaked handle cell, no double "
+         "free), every handle array released with the count it was created with (no out-of-bounds), handles cleared",
+    assumptions=["block slice: the rest of svt_av1_enc_init is dropped; the per-stage counts are arbitrary in 1..2"]))
 META = {"C15": {
     "level": "proof",
     "explanation": "Destructors of the resource-manager family / segments / thread arrays on complete and partially "
                    "constructed objects, the shutdown protocol (C23 U23.6, cited) and the decoder's session teardown "
                    "through its allocation map. Whole-session leak freedom of the encoder is not covered.",
-    "not_covered": ["svt_enc_handle_dctor as a whole, mid-stream teardown with objects in flight, thread exit",
+    "not_covered": ["svt_enc_handle_dctor as a whole (its thread half is U15.2), mid-stream teardown with objects in flight, that a joined kernel actually returns (shutdown protocol: C23 U23.6)",
                     "F6: one global allocation map shared by all decoder handles (two live handles) - see C17"],
 }}
